@@ -29,6 +29,7 @@ int                verif_msg_before(char const *msg, unsigned i, unsigned j);   
 int                verif_msg_nbefore(char const *msg, unsigned i, unsigned j);  // same for watched numbers
 int                verif_msg_sbefore_n(char const *msg, unsigned i, unsigned j);// string i precedes number j
 int                verif_msg_starts(char const *msg, char const *lit);
+int                verif_str_eq_lit(char const *a, char const *b);   // two plain C strings (e.g. location::file vs __FILE__)
 // ---- a std::ostringstream owned by the harness (C18)
 void               verif_stream_set(void *oss, unsigned long width, unsigned flags, unsigned char fill);
 unsigned long      verif_stream_width(void *oss);
